@@ -38,6 +38,15 @@ type config struct {
 	segSize    int32
 	small, big int
 	syncData   bool
+	// preload: entries appended before the search starts (a non-initial state: many segments, or a large log)
+	preload  int
+	depth    int   // 0 = the tier's depth
+	maxOff   int64 // 0 = 9
+	thorough bool  // thorough tier only
+	// preloadBig: the preloaded entries are large ones
+	preloadBig bool
+	// only: when non-nil, the operations enabled in this configuration
+	only map[int]bool
 }
 
 const retentionMs = 10_000
@@ -55,6 +64,7 @@ type inst struct {
 	gens     map[int64]int
 	lowDisk  int64 // lowest offset that may still physically exist (for reopen tolerance)
 	everTrim bool
+	broken   *ev.Violation
 }
 
 func tsOf(off int64) uint64 { return uint64(1_000_000 + 1000*off) }
@@ -79,6 +89,20 @@ func newInst(cfg config, worker int) *inst {
 	in := &inst{cfg: cfg, dir: d, clock: &time2.MockedClock{}, commit: &commitProv{}, synced: -1, first: -1, gens: map[int64]int{}, lowDisk: -1}
 	in.commit.v.Store(-1)
 	in.open()
+	for i := 0; i < cfg.preload; i++ {
+		op := opAppS
+		if cfg.preloadBig {
+			op = opAppL
+		}
+		if ok, v := in.Step(op); v != nil {
+			// the preloaded state itself already disagrees with the model: report it at the first step
+			v.Message = fmt.Sprintf("while building the start state (%d appends): %s", i+1, v.Message)
+			in.broken = v
+			break
+		} else if !ok {
+			panic("preload: append not enabled")
+		}
+	}
 	return in
 }
 
@@ -148,6 +172,12 @@ var opNames = []string{"Append(small)", "Append(large)", "AppendAsync(small)", "
 func viol(key, msg string) *ev.Violation { return &ev.Violation{Key: key, Message: msg} }
 
 func (in *inst) Step(op int) (bool, *ev.Violation) {
+	if in.broken != nil {
+		return true, in.broken
+	}
+	if in.cfg.only != nil && !in.cfg.only[op] {
+		return false, nil
+	}
 	switch op {
 	case opAppS, opAppL, opAsyS, opAsyL, opJump:
 		size := in.cfg.small
@@ -161,7 +191,11 @@ func (in *inst) Step(op int) (bool, *ev.Violation) {
 			}
 			off = 5
 		}
-		if off > 9 {
+		maxOff := int64(9)
+		if in.cfg.maxOff > 0 {
+			maxOff = in.cfg.maxOff
+		}
+		if off > maxOff {
 			return false, nil
 		}
 		e := mentry{off: off, gen: in.gens[off], size: size}
@@ -440,6 +474,16 @@ func (in *inst) Key() string {
 	return b.String()
 }
 
+func depthOf(cfg config, def int, tier string) int {
+	if cfg.depth > 0 {
+		if tier == "thorough" {
+			return cfg.depth + 2
+		}
+		return cfg.depth
+	}
+	return def
+}
+
 func recordSize(size int) int {
 	e := entryOf(mentry{off: 5, gen: 1, size: size})
 	b, _ := e.MarshalVT()
@@ -456,17 +500,23 @@ func main() {
 	small, big := 8, 40
 	rs, rb := recordSize(small), recordSize(big)
 	cfgs := []config{
-		{"seg=2small,sync", int32(2*rs + 3), small, big, true},
-		{"seg=1big+1small,nosync", int32(rb + rs + 3), small, big, false},
-		{"seg=3small,nosync", int32(3*rs + 3), small, big, false},
+		{name: "seg=2small,sync", segSize: int32(2*rs + 3), small: small, big: big, syncData: true},
+		{name: "seg=1big+1small,nosync", segSize: int32(rb + rs + 3), small: small, big: big, syncData: false},
+		{name: "seg=3small,nosync", segSize: int32(3*rs + 3), small: small, big: big, syncData: false},
 	}
 	depth := 6
 	budget := 100 * time.Second
 	if run.Tier == "thorough" {
 		depth = 8
 		budget = 25 * time.Minute
-		cfgs = append(cfgs, config{"seg=1big,sync", int32(rb + 3), small, big, true})
+		cfgs = append(cfgs, config{name: "seg=1big,sync", segSize: int32(rb + 3), small: small, big: big, syncData: true})
 	}
+	// non-initial states: a log of 8 one-record segments (more read-only segments than the segment cache
+	// holds), and a log of large records in one big segment (a truncation removes more than 64 KiB)
+	cfgs = append(cfgs,
+		config{name: "seg=1big,sync,preloaded8", segSize: int32(rb + 3), small: small, big: big, syncData: true, preload: 8, preloadBig: true, depth: 3, maxOff: 11},
+		config{name: "seg=512KiB,records=40KiB,nosync,preloaded6", segSize: 512 * 1024, small: 40 * 1024, big: 40 * 1024, syncData: false, preload: 6, depth: 4, maxOff: 8,
+			only: map[int]bool{opAppS: true, opAsyS: true, opSync: true, opTrunc1: true, opTrunc2: true, opTrunc3: true, opReopen: true}})
 	if d := os.Getenv("VERIF_DEPTH"); d != "" {
 		fmt.Sscanf(d, "%d", &depth)
 	}
@@ -477,7 +527,7 @@ func main() {
 	for _, cfg := range cfgs {
 		cfg := cfg
 		spec := seqx.Spec{Name: "wal-seq", Config: cfg.name, NOps: nOps, OpName: func(i int) string { return opNames[i] },
-			New: func(w int) seqx.Instance { return newInst(cfg, w) }, MaxDepth: depth, Deadline: deadline}
+			New: func(w int) seqx.Instance { return newInst(cfg, w) }, MaxDepth: depthOf(cfg, depth, run.Tier), Deadline: deadline}
 		res := seqx.Explore(spec)
 		seqx.Report(run, spec, res)
 		run.Add("distinct_states", res.States)
